@@ -7,6 +7,10 @@ import QuantityModel.Model.Rounding
 import QuantityModel.Model.Term
 import QuantityModel.Model.Registry
 import QuantityModel.Model.Quantity
+import QuantityModel.Model.Catalogue
+import QuantityModel.Gen.Catalogue
+import QuantityModel.Gen.TempTable
+import QuantityModel.Ref.SIRef
 namespace QM.Driver
 open QM
 
@@ -288,6 +292,43 @@ def stepReg (st : DState) (args : List String) : Option (DState × String) :=
       let (r', res) := r.deriveUnit c us (optStr sym)
       some (setReg r', showDecl r' res false)
     | _, _ => some (st, bad)
+  | ["load_predefined"] =>
+    let (r', failed) := Gen.catalogueSteps.foldl applyCatStep (r, 0)
+    let rows := Gen.tempTable.filterMap fun (f, t, k, o) =>
+      match unitId? r' f, unitId? r' t with
+      | some f, some t => some ((f, t), (k, o))
+      | _, _ => none
+    let q' : QState := match clsId? r' "Temperature" with
+      | some c => { q with reg := r', tables := q.tables ++ [{ rows }],
+                           converters := q.converters ++ [(c, [q.tables.length])] }
+      | none => { q with reg := r' }
+    some ({ st with q := q' }, s!"ok failed={failed}")
+  | ["conv_table", cls, rows] =>
+    match clsId? r cls with
+    | none => some (st, bad)
+    | some c =>
+      let parsed := (rows.splitOn ";").mapM fun row =>
+        match row.splitOn ":" with
+        | [ft, k, o] =>
+          match ft.splitOn ">", parseRat? k, parseRat? o with
+          | [f, t], some k, some o =>
+            match unitId? r f, unitId? r t with
+            | some f, some t => some ((f, t), (k, o))
+            | _, _ => none
+          | _, _, _ => none
+        | _ => none
+      match parsed with
+      | none => some (st, bad)
+      | some rws =>
+        let tid := q.tables.length
+        let old := q.clsConverters c
+        let convs := (q.converters.filter fun p => p.1 != c) ++ [(c, old ++ [tid])]
+        some ({ st with q := { q with tables := q.tables ++ [{ rows := rws }], converters := convs } }, "ok")
+  | ["siref"] =>
+    -- dump of the hand-written reference table (for the independent oracle)
+    let lin := Ref.linearUnits.map fun (c, sy, k) => s!"{c}|{sy}|{ratStr k}"
+    let tmp := Ref.temperatureUnits.map fun (c, sy) => s!"{c}|{sy}|none"
+    some (st, "ok " ++ " ".intercalate (lin ++ tmp))
   | ["observe"] => some (st, "ok " ++ observe r)
   | ["unit_info", sym] =>
     match unitId? r sym with
